@@ -871,6 +871,15 @@ def select_cases():
     add([E("select"), "ap,0,n1", E("selectedcontent"), "ap,1,n2", E("option", sel), "ap,1,n3",
          ce("template", [], "t"), "ap,3,n4", "ap,5," + T("in"), "cc," + hx("c"), "ap,3,n6", "mc,3"])
     add([E("select"), "ap,0,n1", E("selectedcontent"), "ap,1,n2", "ap,2," + T("old"), E("option", sel), "ap,1,n3", "mc,3"])
+    # the target selectedcontent lies INSIDE the selected option itself (source contains destination): the children are
+    # cloned first, then the old content is replaced - the copy of the inner selectedcontent keeps its old text
+    for inner in (["ap,3," + T("x")], ["ap,3," + T("x"), E("b"), "ap,3,n4", "ap,4," + T("z")], []):
+        add([E("select"), "ap,0,n1", E("option", sel), "ap,1,n2", E("selectedcontent"), "ap,2,n3"] + inner +
+            ["ap,2," + T("y"), "mc,2"])
+        add([E("select"), "ap,0,n1", E("option", sel), "ap,1,n2", E("selectedcontent"), "ap,2,n3"] + inner +
+            ["ap,2," + T("y"), "mc,2", "mc,2"])
+    add([E("select"), "ap,0,n1", E("option", sel), "ap,1,n2", E("div"), "ap,2,n3", E("selectedcontent"), "ap,3,n4",
+         "ap,4," + T("deep"), "ap,2," + T("y"), "mc,2"])
     # several selectedcontent elements at different depths / positions: the first in TREE ORDER is the target
     # (shapes = nested lists; "S" = a selectedcontent, a list = a wrapper element with those children)
     def build(shape, parent, ops, counter, names):
